@@ -1,6 +1,7 @@
 import SdxProofs.Field
 import SdxProofs.MonadLemmas
 import SdxProofs.PrefixLemma
+import SdxProofs.ValueMap
 import Mathlib.Tactic.Linarith
 set_option linter.unusedSectionVars false
 /-!
@@ -130,5 +131,16 @@ theorem C11_mask_prefix_covers_range (valueMap : List String) (hsorted : SortedS
   · refine Or.inr ⟨commonPrefix a.toList b.toList, v, h3, ?_⟩
     intro k x hk1 hk2 hx
     exact mask_prefix_covers valueMap hsorted _ k _ a x b hk1 hk2 ha hx hb
+
+/-- T11.c''  the same without a hypothesis, for the value map `StringConvertor.__init__` fits on any column
+(`valueMapOf`, `SdxModel/Convert.lean`: sorted and duplicate-free by `valueMapOf_sorted`). -/
+theorem C11_mask_prefix_fitted (column : List (Option String)) (safe : List Nat)
+    (iv : Ival α) (s s' : List (Draw α)) (cell : Cell α) (f : α)
+    (h : (mapStringInterval (valueMapOf column) safe iv).run s = .ok ((cell, f), s')) :
+    (∃ str, cell = .str str ∧ ∃ v ∈ safe, (valueMapOf column)[v]? = some str) ∨
+    (∃ pre : List Char, ∃ v : Nat, cell = .str (String.ofList pre ++ "*" ++ toString v) ∧
+      ∀ k x, (stringIndexRange iv (valueMapOf column).length).1.toNat ≤ k → k ≤ (stringIndexRange iv (valueMapOf column).length).2.toNat →
+        (valueMapOf column)[k]? = some x → pre <+: x.toList) :=
+  C11_mask_prefix_covers_range (valueMapOf column) (valueMapOf_sorted column) safe iv s s' cell f h
 
 end
